@@ -31,9 +31,11 @@ type histogramGroupedStream struct {
 // synchronixed wrapper.
 func NewHistogramGroupedRecorder(collector ftdc.Collector, interval time.Duration) Recorder {
 	return &histogramGroupedStream{
-		point:     NewHistogramMillisecond(PerformanceGauges{}),
-		collector: collector,
-		catcher:   util.NewCatcher(),
+		point:         NewHistogramMillisecond(PerformanceGauges{}),
+		collector:     collector,
+		catcher:       util.NewCatcher(),
+		interval:      interval,
+		lastCollected: time.Now(),
 	}
 }
 
